@@ -74,7 +74,8 @@ def r5_1(ctx, R):
                 idx = recv[1][2][-1]
                 if idx[0] == "proj" and idx[1][0] == "call" and idx[1][1] in pops:
                     popbb = idx[1][3]
-                    ok = b.dominates(popbb, bb) and b.dominates(recv[1][3], bb)
+                    from lib_flow import all_arrivals_visit
+                    ok = all_arrivals_visit(b, fl, bb, popbb) and all_arrivals_visit(b, fl, bb, recv[1][3])
             ctx.ob("R5.1", b, "child-poll-through-accessor(popped index)@%s" % _site_label(b, bb), ok, b.loc(bb), det)
     ctx.floor("R5.1", "child-poll-sites", n, 1)
 
@@ -173,6 +174,29 @@ def r5_4(ctx, R):
             ents = first_entries(b, fl, bb, none_r)
             stops = b.returns() + [x[0] for x in ups]
             ok2 = bool(ents) and bool(sets) and all(must_pass_flags(b, fl, e, stops, sets) for e in ents)
+            if ents and sets and not ok2:
+                # the end of the upstream may be reported by an inlined helper as a value that is matched after a join
+                # (`Ok(Upstream::Exhausted)` .. `if let Exhausted = upstream { stream.set(None) }`): per feasible path, from the
+                # point the None is known up to the next upstream poll / the return, a set(None) is passed
+                from lib_flow import sensitive_paths, path_const_feasible
+                ok2 = True
+                nseg = 0
+                upbbs = {x[0] for x in ups}
+                for kind_, pth, know in sensitive_paths(b, fl, 2):
+                    if kind_ != "return" or not path_const_feasible(b, pth):
+                        continue
+                    for i_, x_ in enumerate(pth):
+                        if x_ not in ents or bb not in pth[:i_]:
+                            continue
+                        end = len(pth)
+                        for j_ in range(i_ + 1, len(pth)):
+                            if pth[j_] in upbbs:
+                                end = j_
+                                break
+                        nseg += 1
+                        if not any(y_ in sets for y_ in pth[i_:end]):
+                            ok2 = False
+                ok2 = ok2 and nseg > 0
             ctx.ob("R5.4", b, "upstream-none=>set(None)@%s" % _site_label(b, bb), ok2, b.loc(bb),
                    "none-region entries %s set(None) sites %s" % (sorted(ents), [b.loc(s) for s in sets]))
     ctx.floor("R5.4", "upstream-poll-sites", n, 5)
